@@ -60,7 +60,7 @@ def canon_args(canon, prog, h, texts):
 
 
 def body_text(h, ctexts):
-    return "{" + ",".join(dumps(a["name"]) + ":" + c for a, c in zip(h["args"], ctexts)) + "}"
+    return "{" + ",".join(dumps(T.arg_key(a)) + ":" + c for a, c in zip(h["args"], ctexts)) + "}"
 
 
 def doc_text(h, ctexts):
@@ -72,7 +72,7 @@ def doc_text(h, ctexts):
 
 
 def event_args(h, ctexts):
-    return [[a["name"], c] for a, c in zip(h["args"], ctexts)]
+    return [[T.arg_key(a), c] for a, c in zip(h["args"], ctexts)]
 
 
 def wire_names(prog, part_id, kind):
